@@ -23,7 +23,7 @@ func seqResidue(dir string, handles []*reftable.Stack) (leaks []string) {
 // RunC09: a stale handle never commits; it is refreshed and its retry succeeds.
 func RunC09(c *Ctx) {
 	r := c.Rep
-	r.Rule = "case = one call in a sequential random history over 2..4 handles on one directory (Add, NewAddition, CompactAll, AutoCompact, Clean, reopen); the harness knows which handles are stale (names != tables.list, read independently). Stale writes must fail with ErrLockFailure (Add/NewAddition) or do nothing, leave the directory byte-identical, then UpToDate()/NextUpdateIndex()/retry are checked; distinct = (history, step); non-trivial = the call was issued through a stale handle"
+	r.Rule = "case = one call in a sequential random history over 2..4 handles on one directory (Add, NewAddition, CompactAll, AutoCompact, Clean, reopen); the harness knows which handles are stale (names != tables.list, read independently). Stale writes must fail with ErrLockFailure (Add/NewAddition) or do nothing, leave the directory byte-identical, then UpToDate()/NextUpdateIndex()/retry are checked; distinct = (history, step); non-trivial = the call was issued through a stale handle; views of handles holding exactly the listed tables are compared with the model; Adds carrying an already committed update index must fail and change nothing; restart histories (stack emptied, numbering restarts, the same ranges committed again while a second handle holds the first generation)"
 	n := c.N(1000, 40000)
 	for idx := 0; idx < n; idx++ {
 		if !c.Mine(idx) {
